@@ -682,7 +682,9 @@ func randomCase(r *vu.RNG, c *vu.Case) {
 			if r.Chance(1, 2) {
 				pre += r.Bits(r.Intn(5))
 			}
-			if r.Chance(1, 10) {
+			// the provider hands over every peer its lookups returned, also peers outside the covered prefix, but it
+			// only settles on a covered prefix that at least one (in fact r) of them matches: the first peer always does
+			if i > 0 && r.Chance(1, 10) {
 				pre = r.Bits(len(cov))
 			}
 			raw, bs := idWithPrefix(r, pre)
